@@ -117,11 +117,11 @@ fixed("F2", ["C01", "C05", "C09"], "7760bb3",
       "only ever returns Empty (src/sync/mpsc.rs try_recv, src/rt/mpsc.rs)",
       ["missing_outcome", "missed_deadlock"],
       case("C09", "known", "t0: spawn(1); TryRecv; join(1) || t1: Send(v=1)"))
-known("F2b", SCP + ["C15"],
+known("F2b", SCP + ["C15", "C19"],
       "dropping the Receiver (emptiness test in Receiver::drop) is not a scheduling point: a send that can take effect after the "
       "receiver was dropped is explored only in the order send-before-drop, so the `Messages leaked` report of the other order is "
       "never produced: main: send(1) || t1: send(2) || t2 owns the receiver and exits",
-      ["missed_leak", "missing_outcome", "bounded_only_failure", "bounded_result_not_in_unbounded"], "label:send_after_rx_drop",
+      ["missed_leak", "missing_outcome", "bounded_only_failure", "bounded_result_not_in_unbounded", "restricted_only_failure", "result_not_in_unrestricted"], "label:send_after_rx_drop",
       case("C09", "known", "t0: spawn(1); spawn(2); Send(v=1); join(1); join(2) || t1: Send(v=2) || t2: Yield", rx_owner=2))
 
 fixed("F5a", ["C01", "C04", "C05", "C08"], "5d6c669",
